@@ -31,6 +31,10 @@ pub trait Suite: RandomizedCiphersuite + Sized {
     /// Independent single-signer verification of `sig` (wire bytes) on `msg`
     /// under `vk` (wire bytes of the verifying key).
     fn ext_verify(vk: &[u8], msg: &[u8], sig: &[u8]) -> bool;
+    /// Independent H3 (nonce hash) of RFC 9591 for this suite: returns the serialized scalar.
+    fn ext_h3(m: &[u8]) -> Vec<u8>;
+    /// Independent randomizer hash (frost-rerandomized): serialized scalar.
+    fn ext_hrandomizer(m: &[u8]) -> Vec<u8>;
 
     // ---- crate wrappers (default: frost-core directly) ----
     fn w_generate_with_dealer(
@@ -206,6 +210,12 @@ macro_rules! impl_suite {
             const EXT: &'static str = $ext;
             fn ext_verify(vk: &[u8], msg: &[u8], sig: &[u8]) -> bool {
                 $verify(vk, msg, sig)
+            }
+            fn ext_h3(m: &[u8]) -> Vec<u8> {
+                ext_hash_to_scalar($name, "nonce", m)
+            }
+            fn ext_hrandomizer(m: &[u8]) -> Vec<u8> {
+                ext_hash_to_scalar($name, "randomizer", m)
             }
             fn w_generate_with_dealer(
                 n: u16,
@@ -642,4 +652,59 @@ pub fn bip340_verify_xonly(xonly: &[u8], msg: &[u8], sig: &[u8]) -> bool {
     };
     let s = schnorr::Signature::from_byte_array(sb);
     secp.verify_schnorr(&s, msg, &pk).is_ok()
+}
+
+
+/// Independent hash-to-scalar of every suite (context string || tag || m), written from
+/// RFC 9591 section 6 on the curve crates' scalar types; returns the serialized scalar.
+pub fn ext_hash_to_scalar(suite: &str, tag: &str, m: &[u8]) -> Vec<u8> {
+    match suite {
+        "ed25519" | "ristretto255" => {
+            let ctx = if suite == "ed25519" { "FROST-ED25519-SHA512-v1" } else { "FROST-RISTRETTO255-SHA512-v1" };
+            let mut h = Sha512::new();
+            h.update(ctx.as_bytes());
+            h.update(tag.as_bytes());
+            h.update(m);
+            let mut wide = [0u8; 64];
+            wide.copy_from_slice(&h.finalize());
+            curve25519_dalek::scalar::Scalar::from_bytes_mod_order_wide(&wide).to_bytes().to_vec()
+        }
+        "ed448" => {
+            use shake::digest::{ExtendableOutput, Update, XofReader};
+            let mut h = shake::Shake256::default();
+            h.update(b"FROST-ED448-SHAKE256-v1");
+            h.update(tag.as_bytes());
+            h.update(m);
+            let mut rd = h.finalize_xof();
+            let mut wide = [0u8; 114];
+            rd.read(&mut wide);
+            let s = ed448_goldilocks::EdwardsScalar::from_bytes_mod_order_wide(&wide.into());
+            let b: [u8; 57] = s.to_bytes_rfc_8032().into();
+            b.to_vec()
+        }
+        "p256" => {
+            use p256::elliptic_curve::PrimeField;
+            let dst = format!("FROST-P256-SHA256-v1{tag}");
+            let u = xmd_sha256(m, dst.as_bytes(), 48);
+            let mut c = p256::Scalar::ZERO;
+            let b256 = p256::Scalar::from(256u64);
+            for byte in u {
+                c = c * b256 + p256::Scalar::from(byte as u64);
+            }
+            c.to_repr().to_vec()
+        }
+        "secp256k1" | "secp256k1-tr" => {
+            use k256::elliptic_curve::PrimeField;
+            let ctx = if suite == "secp256k1" { "FROST-secp256k1-SHA256-v1" } else { "FROST-secp256k1-SHA256-TR-v1" };
+            let dst = format!("{ctx}{tag}");
+            let u = xmd_sha256(m, dst.as_bytes(), 48);
+            let mut c = k256::Scalar::ZERO;
+            let b256 = k256::Scalar::from(256u64);
+            for byte in u {
+                c = c * b256 + k256::Scalar::from(byte as u64);
+            }
+            c.to_repr().to_vec()
+        }
+        other => panic!("no independent hash for {other}"),
+    }
 }
